@@ -12,6 +12,9 @@ F-2D     a matrix read from a text file is forced two-dimensional (ndmin=2 / atl
 F-ATOMIC in write_hif / write_json the serialisation happens before the target file is opened for writing.
 F-MODE   the reader of a text format frames and decodes the file the way its writer frames and encodes it: both binary with
          a per-line encode / decode (a text-mode reader applies universal newlines and strips only one byte-order mark).
+F-COLL   every branch of a JSON/HIF writer that serialises something also writes it: the serialised string reaches
+         file.write(), each member of a collection is written by the member writer inside the loop that records its relative
+         path, and a literal the reader dispatches on (data["type"] == "collection") is stored before the record is dumped.
 F-CAST   in the text parsers the node handed to the network comes from the node column through `nodetype` (raw only when
          nodetype is None) and the edge ID from the edge column through `edgetype` - followed through local helpers.
 F-MEMO   a conversion memo that outlives one call is keyed by everything the stored value depends on (a cache keyed by the
@@ -34,7 +37,7 @@ RW_MODULES = ["xgi.readwrite.hif", "xgi.readwrite.json", "xgi.readwrite.edgelist
 def run(ctx):
     repo = ctx.repo
     res = Result(PROP)
-    res.rules = ["F-DELEG", "F-FWD", "F-DELIM", "F-2D", "F-ATOMIC", "F-CAST", "F-MEMO", "F-MODE", "T-KEYS", "T-DEF", "T-ATTRS", "T-CAST"]
+    res.rules = ["F-DELEG", "F-FWD", "F-DELIM", "F-2D", "F-ATOMIC", "F-CAST", "F-MEMO", "F-MODE", "F-COLL", "T-KEYS", "T-DEF", "T-ATTRS", "T-CAST"]
     res.explanation = (
         "Narrow claim: the writer and the reader of each file format live in different functions; the rules check that both "
         "sides go through the paired dict converters unchanged, forward every parameter, use the delimiter they were given, "
@@ -55,6 +58,19 @@ def run(ctx):
     check_atomic(repo, res, fns)
     check_cast(repo, res, fns)
     check_mode(repo, res, fns)
+    check_collections(repo, res, fns)
+    from .common import dead_parameters
+
+    nflow = 0
+    for name, f in sorted(fns.items()):
+        if name.startswith("_"):
+            continue
+        nflow += 1
+        dead = dead_parameters(f.node)
+        res.inst("F-FWD", f"{f.fq}: every parameter influences what is read / written", not dead)
+        for p_ in dead:
+            res.add(mk_finding(PROP, "F-FWD", f, f.node, f"{f.qualname}: the parameter `{p_}` cannot influence what is read or written (it is only checked, or stored in a name nothing reads)", role=f"dead:{p_}"))
+    res.floor("readers/writers checked for dead parameters", nflow, 12)
     check_memo(repo, res, PROP, RW_MODULES)
     # the paired dict converters (shared with C10): a file round trip cannot succeed if they disagree
     from . import c10_convert
@@ -450,3 +466,63 @@ def check_mode(repo, res, fns):
         if not ok:
             res.add(mk_finding(PROP, "F-MODE", r, rm[0][0], f"{rname} opens the file in {'binary' if rbin else 'text'} mode{' and decodes line by line' if rdec else ''} while {wname} writes it in {'binary' if wbin else 'text'} mode{' encoding line by line' if wenc else ''}; text mode translates every \\r into a line break and strips a byte-order mark only once, so labels that contain \\r, or encodings that emit a BOM per line (utf-8-sig, utf-16), do not read back", role=rname))
     res.floor("writer/reader pairs of line-based formats", n, 2)
+
+
+def check_collections(repo, res, fns):
+    from ..cfg import CFG
+
+    n = 0
+    for wname, rname in (("write_json", "read_json"), ("write_hif_collection", "read_hif_collection"), ("write_hif", "read_hif")):
+        w, r = fns.get(wname), fns.get(rname)
+        if w is None or r is None:
+            raise AnalysisError(f"{wname}/{rname} not found (anchor vanished)")
+        if not any(isinstance(c, ast.Call) and getattr(c.func, "attr", None) == "dumps" for c in ast.walk(w.node)):
+            # the serialisation lives in a private helper of the module (one call per collection kind)
+            from .common import with_module_helpers
+
+            hs = [h for h in with_module_helpers(repo, w) if h is not w and any(isinstance(c, ast.Call) and getattr(c.func, "attr", None) == "dumps" for c in ast.walk(h.node))]
+            if hs:
+                w = hs[0]
+        cfg = CFG(w.node)
+        stmts = own_statements(w.node)
+        # literals the reader dispatches on: X["K"] == "LIT"
+        wanted = {}
+        for c in ast.walk(r.node):
+            if isinstance(c, ast.Compare) and len(c.ops) == 1 and isinstance(c.ops[0], ast.Eq) and isinstance(c.left, ast.Subscript) and isinstance(c.left.slice, ast.Constant) and isinstance(c.comparators[0], ast.Constant) and isinstance(c.comparators[0].value, str):
+                wanted[c.left.slice.value] = c.comparators[0].value
+        dumps = [st for st in stmts if isinstance(st, ast.Assign) and isinstance(st.value, ast.Call) and getattr(st.value.func, "attr", None) == "dumps" and st.value.args and isinstance(st.value.args[0], ast.Name) and isinstance(st.targets[0], ast.Name)]
+        if not dumps:
+            raise AnalysisError(f"{wname}: no `<name> = json.dumps(<record>)` statement (extractor does not recognise the code)")
+        for d in dumps:
+            n += 1
+            rec, out = d.value.args[0].id, d.targets[0].id
+            # (1) the string is written: every path from the dumps to the exit passes file.write(<string>)
+            def writes(nd, out=out):
+                return isinstance(nd, ast.AST) and any(isinstance(c, ast.Call) and getattr(c.func, "attr", None) == "write" and c.args and isinstance(c.args[0], ast.Name) and c.args[0].id == out for c in ast.walk(nd) if not isinstance(nd, (ast.If, ast.For, ast.While, ast.Try, ast.With)) or c is nd)
+            from ..cfg import EXIT
+            ok = EXIT not in cfg.reachable(d, avoid=writes)
+            res.inst("F-COLL", f"{wname}:{d.lineno} the serialised `{rec}` is written to the file on every path", ok)
+            if not ok:
+                res.add(mk_finding(PROP, "F-COLL", w, d, f"{wname}: `{unparse(d, 50)}` is computed but a path reaches the end of the function without writing it to the file; nothing (or an empty file) is left to read back", role=f"write:{rec}"))
+            # (2) collection records: reader-dispatched literals stored before the dump; members written in the loop
+            is_collection = any(isinstance(x, ast.Subscript) and isinstance(x.value, ast.Subscript) and isinstance(x.value.value, ast.Name) and x.value.value.id == rec and isinstance(x.value.slice, ast.Constant) and x.value.slice.value == "datasets" for st in stmts for x in ast.walk(st))
+            if not is_collection:
+                continue
+            for key, lit in wanted.items():
+                def stores(nd, key=key, lit=lit, rec=rec):
+                    return isinstance(nd, ast.Assign) and any(isinstance(t, ast.Subscript) and isinstance(t.value, ast.Name) and t.value.id == rec and isinstance(t.slice, ast.Constant) and t.slice.value == key for t in nd.targets) and isinstance(nd.value, ast.Constant) and nd.value.value == lit
+                ok = cfg.dominated_by(d, stores)
+                res.inst("F-COLL", f"{wname}:{d.lineno} {rec}[{key!r}] = {lit!r} is stored before the record is serialised", ok)
+                if not ok:
+                    res.add(mk_finding(PROP, "F-COLL", w, d, f"{wname}: {rname} recognises a collection by {key!r} == {lit!r}, but a path serialises `{rec}` without having stored it; the collection file is then read as a single network (or rejected)", role=f"literal:{key}"))
+            # the loop that records the members also writes each member
+            loops = [lp for lp in stmts if isinstance(lp, ast.For) and any(isinstance(x, ast.Subscript) and isinstance(x.ctx, ast.Store) and isinstance(x.value, ast.Subscript) and isinstance(x.value.value, ast.Name) and x.value.value.id == rec for x in ast.walk(lp)) and cfg.dominated_by(d, lambda nd, lp=lp: nd is lp)]
+            for lp in loops:
+                member_writer = "write_hif" if "hif" in wname else wname
+                calls = [c for b in lp.body for c in ast.walk(b) if isinstance(c, ast.Call) and getattr(c.func, "id", None) == member_writer and len(c.args) >= 2] if True else []
+                in_body = [c for c in calls if any(c in list(ast.walk(b)) for b in lp.body if not isinstance(b, (ast.If, ast.Try)))]
+                ok = bool(in_body)
+                res.inst("F-COLL", f"{wname}:{lp.lineno} every recorded member is written by {member_writer}() in the same iteration", ok)
+                if not ok:
+                    res.add(mk_finding(PROP, "F-COLL", w, lp, f"{wname}: the loop records a relative path for every member of the collection but does not (unconditionally) write the member with {member_writer}(); the collection file points at files that do not exist", role="member"))
+    res.floor("serialisation sites in the JSON/HIF writers", n, 4)
